@@ -62,7 +62,7 @@ def possibleRuns (vs : Variants) (eps : List EpSpec) (balancer : String) (racy b
 def kindOf (eps : List EpSpec) (i : Nat) : String := (eps.find? (·.idx == i)).map (fun e => if e.opened then "open" else e.kind) |>.getD "?"
 
 /-- Backends that see the request: every contacted endpoint except refused connections. -/
-def seenList (eps : List EpSpec) (tr : List Ev) : List Nat := (contactedList tr).filter (fun i => kindOf eps i != "refuse")
+def seenList (eps : List EpSpec) (tr : List Ev) : List Nat := (contactedList tr).filter (fun i => kindOf eps i != "refuse" && kindOf eps i != "dnsfail")
 
 /-- How a translated request ends (for the translator collector), from the model run. -/
 def translatorEnd (stream : Bool) (run : List Ev × Result) : TranslatorEnd :=
